@@ -108,6 +108,12 @@ func registerHandlebarsHelpers() {
 		return strconv.Quote(value)
 	})
 
+	// Same as GoStringLiteral, without the surrounding quotes - for text placed inside a literal the template itself opens
+	raymond.RegisterHelper("GoStringBody", func(value string) string {
+		quoted := strconv.Quote(value)
+		return quoted[1 : len(quoted)-1]
+	})
+
 	raymond.RegisterHelper("LastTypeIsByAddress", func(types []definitions.FuncReturnValue, options *raymond.Options) string {
 		if len(types) <= 0 {
 			panic("LastTypeIsByAddress received a 0-length array")
